@@ -48,3 +48,8 @@ check("C11", "exploration",
       "runtime monitor: multi-process x multi-goroutine stress on one cache directory with seeded delays at the cache.* hooks; every reader verifies regenerable self-describing payloads (hash, size, ownership); shared-memory 'Put completed' flags make 'must hit' decidable online; quiescent final sweep; Go race detector in every worker",
       "Rounds on fresh directories (first-creation races) with 3-8 processes x 4-8 goroutines over 8 identical-content and 8 differing-content ids, every fourth round with one writer SIGKILLed midway. The evidence reports operations, lookups that overlapped a Put of the same id (from the merged CLOCK_MONOTONIC op log) and hook hits per point.",
       "Trusted: payload regeneration in gen/payload; flag protocol (set after Put returned, sampled before the lookup is invoked). Interleavings are sampled, not enumerated.")
+
+check("C06", "exploration",
+      "runtime monitor: shared-memory occupancy word per lock path, updated atomically inside every critical section by every participant of every process (online, exact overlap detection); Go race detector in every worker",
+      "Several processes x many goroutines acquire 2-3 lock paths through every entry point the statement names (OpenFile in three modes, Open, Create, Edit, Mutex.Lock, inside Transform's function, inside Write's reader) with dwell times and hook delays; any instant at which a writer is inside together with anyone else is seen by the atomic add itself. Evidence: acquisitions per entry point, contended acquisitions, maximum simultaneous readers (>= 2 required).",
+      "Trusted: atomic operations on a MAP_SHARED page; flock semantics of the kernel are what is being observed. Interleavings are sampled.")
